@@ -20,6 +20,12 @@ that kind is installed on a real ContactlessFrontend, one fault-free
              command) at every host command index of the exchange
   udp        datagram / socket faults of the UDP driver
   mixed      random combinations (two faults, random frames, random bits)
+  race       exchange() while other threads close() / open() / __exit__() the
+             frontend or exchange as well (host link working or unplugged),
+             under the virtual scheduler with one forced thread switch at
+             every scheduling point (lock operations, thread start / exit,
+             every host-link frame)
+  race-random  the same with random programs and random schedules
 
 oracle: ContactlessFrontend.exchange() returns bytes-like data (None only on
 the listen side), or raises an nfc.clf.CommunicationError subclass or IOError;
@@ -33,7 +39,7 @@ from hypothesis import strategies as st
 
 import nfc.clf
 
-from vlib import ref_crc, simchip
+from vlib import ref_crc, simchip, vsched
 from vlib.engine import HarnessError, Leg, Violation, unexpected
 
 PROPERTY = "C13"
@@ -55,6 +61,12 @@ ASSUMPTIONS = [
     "RECEIVE_TIMEOUT / RF_OFF bits, host ETIMEDOUT at the RF command of a "
     "PN53x/ACR122 (TimeoutError), EIO/ENODEV (IOError); everything else "
     "may be any CommunicationError subclass or IOError",
+    "legs race / race-random: interleavings are explored at the "
+    "granularity of synchronisation points (lock acquire / release, thread "
+    "start / exit) plus one yield at every frame written to or read from "
+    "the host link; byte-code level races are not explored; only the "
+    "outcome of exchange() is judged, close() / open() may raise IOError "
+    "or nfc.clf.Error",
     "Arygon TTY handshake (arygon.init) and pn532.init serial negotiation "
     "are outside; ChipsetA/B + DeviceA/B are constructed directly",
 ]
@@ -113,6 +125,8 @@ CMDNAME = {0x06: "ReadRegister", 0x08: "WriteRegister",
 
 def setup():
     simchip.patch_time()
+    vsched.patch_nfc()      # leg race; real threading / time when no
+    #                         scheduler is active
 
 
 def family(driver):
@@ -902,6 +916,191 @@ def run_mixed(case, ctx):
         ctx.nontrivial()
 
 
+# ---------------------------------------------------------------- leg race
+# exchange() while other threads close / reopen the frontend or exchange as
+# well, under the virtual scheduler: the real driver over the simulated chip,
+# the host link yields at every frame written (and read) so that a thread can
+# be caught inside a driver call, with the frontend lock held.
+RACE_OPS = ("exchange", "close", "open", "exit", "max-send")
+RACE_PROGRAMS = [
+    [["exchange"], ["close"]],
+    [["close"], ["exchange"]],
+    [["exchange", "exchange"], ["close", "open"]],
+    [["exchange"], ["open", "exchange"]],
+    [["exchange"], ["exchange"], ["exit"]],
+]
+
+
+def _yielding(fn, world):
+    def call(*a, **k):
+        s = vsched.current()
+        if s is not None and not s.abort:
+            lock = world["clf"].lock if world.get("clf") else None
+            if lock is not None and any(
+                    t.state == vsched.BLOCKED and t.wait_on is lock
+                    for t in s.threads):
+                world["contended"] = True
+            s.yield_()
+        return fn(*a, **k)
+    return call
+
+
+def _dead(*a, **k):
+    raise IOError(errno.ENODEV, os.strerror(errno.ENODEV))
+
+
+def race_device(sc, link_state, world):
+    """a device of the scenario's driver through its real constructor, RF
+    partner installed; link_state: "ok", or "dead" = the reader is unplugged
+    after initialisation (every host-link operation fails with ENODEV)"""
+    dev, link = simchip.build(sc.driver)
+    install(sc, dev, link)
+    if sc.driver == "udp":
+        if link_state == "dead":
+            link.send_script = dict((i, ["error", errno.ENODEV])
+                                    for i in range(64))
+            link.inbox = [OSError(errno.ENODEV, "ENODEV")] * 8
+        link.select = _yielding(link.select, world)
+    else:
+        link.arm()
+        if link_state == "dead":
+            link.write = link.read = _dead
+        link.write = _yielding(link.write, world)
+        link.read = _yielding(link.read, world)
+    return dev
+
+
+def run_race(case, ctx):
+    drv, kind = case["driver"], case["kind"]
+    state = case.get("link", "ok")
+    sc = scenario(drv, kind)
+    ctx.set_class("%s/race/%s" % (family(drv), sc.side))
+    ctx.label("driver:" + drv, "side:" + sc.side, "link:" + state)
+    s = vsched.Sched(case.get("choices", []), seed=0, step_budget=200000)
+    if case.get("force"):
+        s.forced = dict((int(p), int(k)) for p, k in case["force"])
+    vsched.activate(s)
+    outcomes = []           # (thread, op index, tag) of every exchange()
+    problems = []           # Violations / foreign exceptions, in order
+    saved_connect = nfc.clf.device.connect
+    try:
+        world = {}
+        nfc.clf.device.connect = lambda path: race_device(sc, state, world)
+        clf = world["clf"] = nfc.clf.ContactlessFrontend()
+        if not clf.open("usb"):
+            raise HarnessError("open over the simulated chip failed")
+        clf.target = sc.target
+
+        def thread(i, prog):
+            def body():
+                for n, op in enumerate(prog):
+                    what = "%s %s link %s: thread %d op %d %s of %r" % (
+                        drv, kind, state, i, n, op, case["programs"])
+                    try:
+                        if op == "exchange":
+                            tag, val = classify_outcome(
+                                lambda: clf.exchange(sc.send, sc.timeout),
+                                what)
+                            tag = check_general(sc, tag, val, what)
+                            outcomes.append((i, n, tag))
+                        elif op == "close":
+                            clf.close()
+                        elif op == "exit":
+                            clf.__exit__(None, None, None)
+                        elif op == "open":
+                            clf.open("usb")
+                        elif op == "max-send":
+                            clf.max_send_data_size
+                        else:
+                            raise HarnessError("unknown op %r" % op)
+                    except (vsched.Abort, vsched.StepBudget):
+                        raise
+                    except Violation as v:
+                        problems.append(v)
+                    except (IOError, nfc.clf.Error):
+                        pass        # only exchange() is judged here
+                    except Exception as e:
+                        problems.append(e)
+            return body
+        for i, prog in enumerate(case["programs"]):
+            s.spawn(thread(i, prog), "app%d" % i)
+        s.settle()
+        s.sleep(30.0)
+        s.settle()
+        alive = [t.name for t in s.alive()]
+        failed = s.failures()
+        points = s.points
+    finally:
+        nfc.clf.device.connect = saved_connect
+        s.shutdown()
+        vsched.activate(None)
+    for i, n, tag in outcomes:
+        ctx.label("outcome:" + tag)
+    if problems:
+        raise problems[0]
+    if failed:
+        raise failed[0][1]
+    if alive:
+        raise Violation("exchange-did-not-return", "%s %s %r: still running "
+                        "%r" % (drv, kind, case["programs"], alive))
+    if world.get("contended"):
+        ctx.nontrivial()
+        ctx.label("lock-contended")
+    ctx.note({"scheduling_points": points,
+              "outcomes": ["%d.%d:%s" % o for o in outcomes]})
+    return points
+
+
+class _NoCtx(object):
+    def __getattr__(self, name):
+        return lambda *a, **k: None
+
+
+def race_combos(tier, seed):
+    """thorough: every driver x kind; quick: per driver one initiator-side
+    and one listen-side kind, rotating with the seed"""
+    if tier != "quick":
+        return list(COMBOS)
+    out = []
+    for d in simchip.DRIVERS:
+        ini = [k for k in KINDS[d] if not k.startswith("L-")]
+        lis = [k for k in KINDS[d] if k.startswith("L-")]
+        for ks in (ini, lis):
+            if ks:
+                out.append((d, ks[det_int(16, seed, "race", d) % len(ks)]))
+    return out
+
+
+def enum_race(tier, seed):
+    for d, k in race_combos(tier, seed):
+        for state in ("ok", "dead"):
+            for progs in RACE_PROGRAMS:
+                base = {"driver": d, "kind": k, "link": state,
+                        "programs": progs}
+                yield base
+                try:
+                    points = run_race(dict(base), _NoCtx())
+                except Exception:
+                    continue        # the unforced case above reports it
+                for p in range(1, points + 1):
+                    for pick in range(1, len(progs) + 1):
+                        yield dict(base, force=[[p, pick]])
+
+
+_race_case = st.fixed_dictionaries({
+    "combo": st.integers(0, len(COMBOS) - 1),
+    "link": st.sampled_from(["ok", "ok", "dead"]),
+    "programs": st.lists(st.lists(st.sampled_from(
+        ["exchange", "exchange", "close", "open", "exit", "max-send"]),
+        min_size=1, max_size=3), min_size=2, max_size=3),
+    "choices": st.lists(st.integers(0, 2), min_size=6, max_size=40)})
+
+
+def run_race_random(case, ctx):
+    drv, kind = COMBOS[case["combo"] % len(COMBOS)]
+    return run_race(dict(case, driver=drv, kind=kind), ctx)
+
+
 LEGS = [
     Leg("baseline", run=run_baseline, enum=enum_baseline, exhaustive=True,
         rule="every driver x supported target kind (%d combinations): the "
@@ -942,4 +1141,29 @@ LEGS = [
              "values) at random host command indices; general oracle only; "
              "non-trivial = more than one fault or a fault at a preparatory "
              "command."),
+    Leg("race", run=dev_known(run_race), enum=enum_race, exhaustive=True,
+        shards_quick=16, shards_thorough=16,
+        rule="exchange() concurrent with close() / open() / __exit__() / "
+             "another exchange() of other threads under the virtual "
+             "scheduler: real driver over the simulated chip (quick: per "
+             "driver one initiator-side and one listen-side kind chosen by "
+             "the seed; thorough: all %d driver x kind combinations) x host "
+             "link {working, unplugged after open = ENODEV everywhere} x %d "
+             "fixed 2-3 thread programs x {default schedule, one forced "
+             "switch to each thread at every scheduling point}; scheduling "
+             "points are lock operations, thread start/exit and every frame "
+             "written to / read from the host link. Oracle of the property "
+             "on every exchange(): bytes-like data (None only on the listen "
+             "side) or nfc.clf.CommunicationError subclass or IOError, and "
+             "it returns. Non-trivial = a thread waited for the frontend "
+             "lock while another one was inside a driver call."
+             % (len(COMBOS), len(RACE_PROGRAMS))),
+    Leg("race-random", run=dev_known(run_race_random),
+        gen=lambda tier: _race_case, quick=1200, thorough=30000,
+        shards_quick=8, shards_thorough=16, nt_floor=0.15,
+        rule="the same with 2-3 random programs of 1-3 operations out of "
+             "{exchange, close, open, __exit__, max_send_data_size} over a "
+             "random driver x kind, working or unplugged link, and a random "
+             "schedule choice list of up to 40 entries; same oracle and "
+             "non-trivial rule."),
 ]
